@@ -68,6 +68,15 @@ def gen_cases(tier, seed):
         for nn in nots:
             for i in range(25):
                 cases.append(_mk(r, r.choice(alld), nn, with_clock=bool(i % 2)))
+    # calendar corner dates under EVERY notation, with and without clock, in both tiers
+    special = [date(y, 2, 29) for y in range(1992, 2029, 4)] + [date(y, 2, 28) for y in (1999, 2000, 2001, 2023)] + \
+              [date(y, 12, 31) for y in (1999, 2000, 2019, 2029)] + [date(y, 1, 1) for y in (1990, 2000, 2001, 2020)] + \
+              [date(2000, 3, 1), date(2004, 3, 1), date(2010, 10, 10), date(2011, 11, 11), date(2012, 12, 12), date(2001, 1, 31), date(2003, 8, 31)]
+    for d in special:
+        for nn in nots:
+            cases.append(_mk(r, d, nn, with_clock=False))
+            if tier == "thorough" or d.month == 2:
+                cases.append(_mk(r, d, nn, with_clock=True))
     r.shuffle(cases)
     return cases
 
